@@ -1059,6 +1059,17 @@ class Interp:
                 for i, te in enumerate(t.elts):
                     self.assign(te, shape_sym(v[1].name, i), node)
                 return
+            # unpacking an array / a row of an array: element reads
+            arr = self.as_arr(v, None) if isinstance(v, (Arr, tuple)) else None
+            if arr is not None:
+                for i, te in enumerate(t.elts):
+                    self.assign(te, self.read(arr, (Rat.const(i),)), node)
+                return
+            ra = self.row_alias(v) if isinstance(v, Rat) else None
+            if ra is not None:
+                for i, te in enumerate(t.elts):
+                    self.assign(te, self.read(ra[0], ra[1] + (Rat.const(i),)), node)
+                return
             sv = self.as_scalar(v, node)
             for i, te in enumerate(t.elts):
                 self.assign(te, Rat.atom(App('unpack', [sv, Rat.const(i)])), node)
@@ -1205,6 +1216,15 @@ class Interp:
             var = '%s@%d' % (s.target.id, self.fresh)
             loop = Loop(var, lo, hi, step, s, it[1])
             self.env[s.target.id] = Rat.sym(var)
+        elif isinstance(s.target, ast.Name) and self.as_arr(it, getattr(s.iter, 'id', None)) is not None and \
+                any(isinstance(x, ast.Subscript) and isinstance(x.ctx, ast.Store) and isinstance(x.value, ast.Name) and
+                    x.value.id == s.target.id for b_ in s.body for x in ast.walk(b_)):
+            # `for row in arr: row[k] = ...`: rows are views - the same as an index loop over the first axis
+            arr = self.as_arr(it, getattr(s.iter, 'id', None))
+            self.fresh += 1
+            var = '%s@%d' % (s.target.id, self.fresh)
+            loop = Loop(var, Rat.const(0), shape_sym(arr.name, 0), Rat.const(1), s, 'range')
+            self.env[s.target.id] = Rat.atom(App('read', [arr.name, Rat.sym(var)]))
         else:
             # generic iteration: targets become opaque symbols
             self.fresh += 1
